@@ -56,8 +56,8 @@ Proof. exact after_top_level_object. Qed.
 Print Assumptions C10_after_top_level_object.
 
 (* the structural invariant of the rule stack behind these facts, on every reachable state *)
-Theorem C10_stack_structure : forall cfg es c, steps cfg init_rctx es = Some c -> WF c.
-Proof. exact steps_WF. Qed.
+Theorem C10_stack_structure : forall cfg es c, state_after cfg es = Some c -> WF c.
+Proof. exact state_WF. Qed.
 Print Assumptions C10_stack_structure.
 
 (* (c) Completeness on the fragment without markers, references, chunked arrays, media and custom types
@@ -73,13 +73,14 @@ Theorem C10_wf_documents_accepted :
 Proof. exact wf_doc_accepted. Qed.
 Print Assumptions C10_wf_documents_accepted.
 
-(* The full statement of C10, kept for reference: acceptance is equivalent to being the flattening of a
-   well-formed document (over the full grammar, with markers, references and chunked arrays).  Proved: the
-   right-to-left direction on the fragment above, and the invariants (b) in place of left-to-right. *)
-Definition C10_full_fragment : Prop :=
-  forall cfg es, accepts_document cfg es = true <->
-    exists d, wf_doc cfg d = true /\ flatten_doc cfg d = es /\
-              object_usage es <= max_object_count cfg /\ doc_height d <= max_container_depth cfg.
+(* The full statement on the fragment, kept for reference: an event list of the fragment is accepted exactly
+   when it is the flattening of a well-formed document within the limits.  Proved: right to left (above).
+   Not proved: left to right (the ghost-tree construction); in its place the invariants (b). *)
+Definition C10_fragment_exact_full : Prop :=
+  forall cfg es, in_fragment es = true ->
+    (accepts_document cfg es = true <->
+     exists d, wf_doc cfg d = true /\ flatten_doc cfg d = es /\
+               object_usage es <= max_object_count cfg /\ doc_height d <= max_container_depth cfg).
 
 Definition C10_tree : doc :=
   {| d_pre := [TopTrivia TPad; TopRecType [114] [EStringArray AT_String [120]; EPosInt 2] [TPad]];
